@@ -186,6 +186,7 @@ class CContext:
 
         bit_offsets = {}
         bit_offset = 0  # Offset in bits
+        max_alignment = 8  # Strictest alignment of the members, in bits
         for field in typ.fields:
             # Calculate bit size:
             if field.bitsize:
@@ -197,6 +198,7 @@ class CContext:
 
             # alignment handling:
             bit_offset += required_padding(bit_offset, alignment)
+            max_alignment = max(max_alignment, alignment)
 
             # We are now at the position of this field
             bit_offsets[field] = bit_offset
@@ -215,9 +217,9 @@ class CContext:
             if kind == "struct":
                 bit_offset += bitsize
 
-        # TODO: should we take care here of maximum alignment as well?
-        # Finally align at 8 bits:
-        bit_offset += required_padding(bit_offset, 8)
+        # Pad the tail, such that the members of the next element of an
+        # array of this struct are aligned as well:
+        bit_offset += required_padding(bit_offset, max_alignment)
         assert bit_offset % 8 == 0
         byte_size = bit_offset // 8
         return byte_size, bit_offsets
